@@ -71,9 +71,34 @@ impl Corpus {
         secs[0] = format!("{}^{}-{}+{}={}", ph[0], ph[1], ph[2], ph[3], ph[4]);
         join_sections(&secs)
     }
-    /// n labels: consecutive corpus lines, shuffled corpus lines, or recombined labels.
+    /// n labels in which earlier labels come back: the same line again, or the same phoneme context with every other
+    /// section taken from other lines (a repeated word in another prosodic position)
+    pub fn echoing(&self, rng: &mut Rng, n: usize) -> Vec<String> {
+        let mut out: Vec<String> = Vec::new();
+        for i in 0..n {
+            if i > 0 && rng.chance(0.5) {
+                let src = out[rng.below(out.len())].clone();
+                if rng.chance(0.3) {
+                    out.push(src);
+                } else {
+                    let mut secs = split_sections(&src).unwrap();
+                    for k in 1..12 {
+                        if rng.chance(0.7) {
+                            secs[k] = self.sections[rng.below(self.sections.len())][k].clone();
+                        }
+                    }
+                    out.push(join_sections(&secs));
+                }
+            } else {
+                out.push(self.lines[rng.below(self.lines.len())].clone());
+            }
+        }
+        out
+    }
+    /// n labels: consecutive corpus lines, shuffled corpus lines, recombined labels, or labels that echo earlier ones.
     pub fn utterance(&self, rng: &mut Rng, n: usize) -> Vec<String> {
-        match rng.below(4) {
+        match rng.below(5) {
+            4 => self.echoing(rng, n),
             3 if !self.extras.is_empty() => {
                 // a run of the repository's sample sentences (short utterances, different utterance-level contexts)
                 let start = rng.below(self.extras.len());
